@@ -5,6 +5,7 @@
 From Coq Require Import List Bool.
 Import ListNotations.
 From GV Require Import C09.StopModel C09.StopProofs C17.Model C17.Proofs.
+From GV Require C09.StopAll.
 From GV Require C06.Model C17.Handler.
 
 (* PostStop (and PreStart) at most once for every user actor — every interleaving *)
@@ -26,6 +27,14 @@ Proof. intros s R. apply (user_children_first_g true s (or_introl eq_refl) R). Q
 Theorem C17_user_tree_stopped_partial : forall s, C17.Model.reach_rf false s -> tree_stopped (C17.Model.ph s) = true ->
   forall d, chain (tree s) 0 d -> running (acts (tree s) d) = false /\ In (EPostE d) (trace (tree s)).
 Proof. intros s R. apply (user_tree_stopped_g false s (or_intror R) (reach_rf_reach _ _ R)). Qed.
+
+(* PostStop for EVERY user actor whose spawn has returned, anywhere below the user guardian, on every
+   execution (concurrent stops included) in which no children snapshot is taken while a SpawnChild of
+   that actor is in flight *)
+Theorem C17_every_user_actor_stopped : forall s, reach_ns true s -> tree_stopped (C17.Model.ph s) = true ->
+  forall d, C09.StopAll.desc (tree s) 0 d -> C09.StopAll.complete (acts (tree s) d) ->
+  running (acts (tree s) d) = false /\ In (EPostE d) (trace (tree s)).
+Proof. exact every_user_actor_stopped. Qed.
 
 (* an actor whose SpawnChild is in flight when the system stops is outside every snapshot *)
 Theorem C17_spawn_during_stop_refuted : forall ws, exists s, C17.Model.run ws sys0 witness_spawn_during_stop = Some s /\ C17.Model.reach ws s /\
@@ -72,6 +81,7 @@ Print Assumptions C17_user_poststop_at_most_once.
 Print Assumptions C17_user_tree_stopped_repaired.
 Print Assumptions C17_children_first_repaired.
 Print Assumptions C17_user_tree_stopped_partial.
+Print Assumptions C17_every_user_actor_stopped.
 Print Assumptions C17_spawn_during_stop_refuted.
 Print Assumptions C17_grain_deactivated_at_most_once.
 Print Assumptions C17_grains_all_deactivated.
